@@ -117,15 +117,25 @@ def examine(sc, r, label, faulted):
     return None
 
 
-def dropbox_model_check(ctx, sc, ref, r, fault, label):
-    """compare the faulted upload with the Gallina machine (Dropbox only)"""
-    ups = [q for q in ref["requests"] if q["route"] in UPLOAD_ROUTES["dropbox"]]
-    # the reference run uploads the backups in order: split its upload requests per backup at each session start
+MACHINE = {
+    # provider: (tag, routes of one upload in model order, route that starts an upload, data route, checksum route)
+    "dropbox": (500, ["dropbox.upload_session.start", "dropbox.upload_session.append", "dropbox.upload_session.finish", "dropbox.move", "dropbox.delete"],
+                "dropbox.upload_session.start", "dropbox.upload_session.append", "dropbox.upload_session.finish"),
+    "yandex": (501, ["yandex.resources.upload_href", "yandex.upload.put", "yandex.operations.get", "yandex.resources.md5", "yandex.resources.move",
+                     "yandex.resources.delete"], "yandex.resources.upload_href", "yandex.upload.put", "yandex.resources.md5"),
+    "google": (502, ["google.upload.init_create", "google.upload.put", "google.files.md5", "google.files.update", "google.files.delete"],
+               "google.upload.init_create", "google.upload.put", "google.files.md5"),
+}
+
+
+def model_check(ctx, sc, ref, r, fault, label):
+    """compare the disturbed upload with the Gallina upload machine of the provider: (temporary left, final-named objects, success)"""
+    tag, routes, start, data_route, sum_route = MACHINE[sc.provider]
     per = []
-    for q in ups:
-        if q["route"].endswith("start"):
+    for q in ref["requests"]:
+        if q["route"] == start:
             per.append([])
-        if per:
+        if per and q["route"] in routes:
             per[-1].append(q)
     which = None
     for bi, qs in enumerate(per):
@@ -137,31 +147,36 @@ def dropbox_model_check(ctx, sc, ref, r, fault, label):
     bi, j = which
     kind = fault["fault"]
     if [q["route"] for q in r["requests"]][:fault["index"] + 1] != [q["route"] for q in ref["requests"]][:fault["index"] + 1]:
-        ctx.count("dropbox.model-skipped-different-prefix")
+        ctx.count("%s.model-skipped-different-prefix" % sc.provider)
         return
     nreq = len(per[bi])
-    replies = [0] * (nreq + 1)
+    replies = [0] * (nreq + 3)
     sum_ok = 1
     if kind in ("corrupt", "wrong_checksum"):
-        if kind == "wrong_checksum" and not per[bi][j]["route"].endswith("finish"):
+        if kind == "wrong_checksum" and per[bi][j]["route"] != sum_route:
             return
-        if kind == "corrupt" and not per[bi][j]["route"].endswith("append"):
+        if kind == "corrupt" and per[bi][j]["route"] != data_route:
             return
         sum_ok = 0
     else:
         replies[j] = 1
-    body = sum(q["body_bytes"] for q in per[bi] if q["route"].endswith("append"))
-    m = model.run_driver([[500, [[min(body, 50)], sum_ok, replies, 0, 0]]])[0]
+    if sc.provider == "dropbox":
+        body = sum(q["body_bytes"] for q in per[bi] if q["route"] == data_route)
+        case = [tag, [[min(body, 50)], sum_ok, replies, 0, 0]]
+    else:
+        case = [tag, [20, sum_ok, replies, 0, 0]]
+    m = model.run_driver([case])[0]
     b = sc.backups[bi]
-    obs = [int(bool(r["blobs"].get(sc.temp_path(b)))), int(bool(r["blobs"].get(sc.final_path(b)))),
+    obs = [int(bool(r["blobs"].get(sc.temp_path(b)))), len(r["blobs"].get(sc.final_path(b), [])),
            int(not any(b in e for e in slevel.errors_of(r["out"])))]
     exp = [m[1], m[3], m[4]]
-    ctx.count("dropbox.model-compared")
+    ctx.count("%s.model-compared" % sc.provider)
     if obs != exp:
-        ctx.violation("upload-model", "correspondence dropbox-upload-machine no longer checks: %s: (temporary present, final present, success) = %s, the model says %s"
-                      % (label, obs, exp), {"fault": fault, "backup": b, "model_case": [[min(body, 50)], sum_ok, replies, 0, 0], "model_output": m,
-                                                "requests": [(q["index"], q["route"], q.get("fault")) for q in r["requests"]], "objects": sorted(r["blobs"]),
-                                                "output": r["out"][-700:]}, failing_input=False)
+        ctx.violation("upload-model", "correspondence %s-upload-machine no longer checks: %s: (temporary present, final-named objects, success) = %s, the model says %s"
+                      % (sc.provider, label, obs, exp),
+                      {"fault": fault, "backup": b, "model_case": case, "model_output": m,
+                       "requests": [(q["index"], q["route"], q.get("fault")) for q in r["requests"]], "objects": sorted(r["blobs"]),
+                       "output": r["out"][-700:]}, failing_input=False)
 
 
 def provider_sweep(ctx, rng, provider, budget):
@@ -209,8 +224,8 @@ def provider_sweep(ctx, rng, provider, budget):
                 ctx.violation("upload", pr, {"provider": provider, "fault": fault, "route": q["route"], "output": r["out"][-1000:],
                                              "requests": [x["route"] for x in r["requests"]][-12:]})
                 return
-            if provider == "dropbox" and applied:
-                dropbox_model_check(ctx, sc, ref, r, {"index": q["index"], "fault": kind}, label)
+            if applied:
+                model_check(ctx, sc, ref, r, {"index": q["index"], "fault": kind}, label)
                 if ctx.violations:
                     return
             import shutil
